@@ -406,6 +406,7 @@ func Analyze(tr *Trace) *Analyzer {
 								a.add("C04", "zero-up-seid", "establishment returned UP SEID 0", i)
 							} else if o, live := a.byUP[upseid]; live {
 								a.add("C04", "duplicate-up-seid", fmt.Sprintf("establishment returned UP SEID %#x which session #%d still holds", upseid, o.h), i)
+								a.add("C08", "est-fseid-addresses-another-session", fmt.Sprintf("the UP F-SEID %#x of the Establishment Response is the one live session #%d was given: it cannot address both", upseid, o.h), i)
 							}
 							// a released SEID may be re-issued only after its previous session is gone from the data plane
 							for _, k := range SortedKeys(st.DPPre) {
